@@ -28,4 +28,25 @@ def Re.strip : Re → Re
   | .flags s i r => .flags s i r.strip
   | r => r
 
+/-- every inline flag scope *inside* the top-level `(?s…:…)` wrapper is case-insensitive
+    (the wrapper itself carries the pattern's own case mode) -/
+def Re.allCi' : Re → Bool
+  | .flags _ i r => i && r.allCi'
+  | .cat a b => a.allCi' && b.allCi'
+  | .alt a b => a.allCi' && b.allCi'
+  | .grp r => r.allCi'
+  | .cap r => r.allCi'
+  | .gcap r => r.allCi'
+  | .opt r => r.allCi'
+  | .star _ r => r.allCi'
+  | .plus r => r.allCi'
+  | .rep _ _ r => r.allCi'
+  | .look _ r => r.allCi'
+  | _ => true
+
+/-- for `^(?s[i]:inner)$`: `allCi'` of `inner` -/
+def Re.allCiTop : Re → Bool
+  | .cat .bos (.cat (.flags _ _ inner) .eos) => inner.allCi'
+  | _ => false
+
 end WcModel
